@@ -57,6 +57,11 @@ SCHEDULES = [
     # the command line carries configuration overrides: every regeneration must honour them, as the one-shot run does
     ("config-overrides", [(0.0, "small"), (0.4, "invalid"), (0.4, "medium")],
      ["-c", "python.generateNDJson=false", "-c", "cpp.generateNDJson=false"]),
+    # two previous versions: the LAST save is in the directory of the second one and must regenerate (the compatibility code depends on it)
+    ("edit-in-second-previous-version", [(0.0, "small"), (0.5, "v1/m.yml=" + small_model("X").replace("a: int32", "a: int8")), (0.8, "v2/m.yml=" + small_model("X").replace("a: int32", "a: int16"))],
+     [], {"cfg": CFG + "versions:\n  v1: ../v1\n  v2: ../v2\n",
+          "files": {"v1/_package.yml": "namespace: Wt\n", "v1/m.yml": small_model("X"), "v2/_package.yml": "namespace: Wt\n", "v2/m.yml": small_model("X")},
+          "final": "small"}),
     ("unfetchable-import-of-import", [(0.0, "lib/_package.yml=namespace: Lib\nimports:\n  - ../lib2\n  - ftp://example.invalid/x\n"), (0.4, "small"),
                                       (0.4, "lib/_package.yml=namespace: Lib\nimports:\n  - 'https:'\n"), (0.4, "small2"),
                                       (0.4, "lib/_package.yml=namespace: Lib\nimports:\n  - ../lib2\n"), (0.4, "uses-lib")]),
@@ -78,7 +83,7 @@ def tree(root):
     return h
 
 
-def one_shot(ctx, d, model, args=()):
+def one_shot(ctx, d, model, args=(), extra=None, edits=()):
     os.makedirs(d + "/model", exist_ok=True)
     os.makedirs(d + "/lib", exist_ok=True)
     open(d + "/lib/_package.yml", "w").write("namespace: Lib\nimports:\n  - ../lib2\n")
@@ -86,7 +91,12 @@ def one_shot(ctx, d, model, args=()):
     os.makedirs(d + "/lib2", exist_ok=True)
     open(d + "/lib2/_package.yml", "w").write("namespace: Lib2\n")
     open(d + "/lib2/lib2.yml", "w").write("Deep: int32\n")
-    open(d + "/model/_package.yml", "w").write(CFG)
+    open(d + "/model/_package.yml", "w").write(extra["cfg"] if extra else CFG)
+    for rel, text in (extra or {}).get("files", {}).items():
+        os.makedirs(os.path.dirname(os.path.join(d, rel)), exist_ok=True)
+        open(os.path.join(d, rel), "w").write(text)
+    for rel, text in edits:
+        open(os.path.join(d, rel), "w").write(text)
     open(d + "/model/m.yml", "w").write(model)
     rc, o, e = sh([ctx.yardl, "generate"] + list(args), cwd=d + "/model", timeout=300)
     if rc != 0:
@@ -94,7 +104,7 @@ def one_shot(ctx, d, model, args=()):
     return tree(d + "/out")
 
 
-def scenario(ctx, idx, name, schedule, args=()):
+def scenario(ctx, idx, name, schedule, args=(), extra=None):
     d = os.path.join(ctx.scratch, "w%d" % idx)
     os.makedirs(d + "/model")
     os.makedirs(d + "/lib")
@@ -103,8 +113,11 @@ def scenario(ctx, idx, name, schedule, args=()):
     os.makedirs(d + "/lib2")
     open(d + "/lib2/_package.yml", "w").write("namespace: Lib2\n")
     open(d + "/lib2/lib2.yml", "w").write("Deep: int32\n")
-    open(d + "/model/_package.yml", "w").write(CFG)
-    open(d + "/model/m.yml", "w").write(MODELS["small2"])
+    open(d + "/model/_package.yml", "w").write(extra["cfg"] if extra else CFG)
+    for rel, text in (extra or {}).get("files", {}).items():
+        os.makedirs(os.path.dirname(os.path.join(d, rel)), exist_ok=True)
+        open(os.path.join(d, rel), "w").write(text)
+    open(d + "/model/m.yml", "w").write(MODELS["small2"] if not extra else MODELS[extra["final"]])
     log = open(d + "/watch.log", "wb")
     p = subprocess.Popen([ctx.yardl, "generate", "--watch"] + list(args), cwd=d + "/model", stdout=log, stderr=subprocess.STDOUT)
     try:
@@ -121,7 +134,7 @@ def scenario(ctx, idx, name, schedule, args=()):
             else:
                 with open(d + "/model/m.yml", "w") as f:
                     f.write(MODELS[key])
-        final = schedule[-1][1]
+        final = schedule[-1][1] if not extra else extra["final"]
         # quiescence: the tree does not change for 4 s (longer than the slowest regeneration), at least 6 s after the last save
         last, stable_since, t_end = None, time.time(), time.time()
         while True:
@@ -134,7 +147,7 @@ def scenario(ctx, idx, name, schedule, args=()):
             if time.time() - t_end > 90:
                 break
         alive = p.poll() is None
-        return {"name": name, "dir": d, "tree": last, "alive": alive, "final": final, "schedule": schedule, "args": list(args)}
+        return {"name": name, "dir": d, "tree": last, "alive": alive, "final": final, "schedule": schedule, "args": list(args), "extra": bool(extra)}
     finally:
         p.kill()
         p.wait()
@@ -155,16 +168,20 @@ def run(ctx):
                    {"broken": failing, "log": log[-3000:]}, no_input=True)
     quick = ctx.tier == "quick"
     reps = 1 if quick else 3
-    scheds = [(e[0], e[1], tuple(e[2]) if len(e) > 2 else ()) for e in SCHEDULES]
-    jobs = [(n, s, a) for r in range(reps) for (n, s, a) in scheds]
-    jobs = [(k, n, s, a) for k, (n, s, a) in enumerate(jobs)]
+    scheds = [(e[0], e[1], tuple(e[2]) if len(e) > 2 else (), e[3] if len(e) > 3 else None) for e in SCHEDULES]
+    jobs = [(n, s, a, x) for r in range(reps) for (n, s, a, x) in scheds]
+    jobs = [(k, n, s, a, x) for k, (n, s, a, x) in enumerate(jobs)]
     refs = {}
-    for k, (key, a) in enumerate(sorted({(s[-1][1], a) for _, s, a in scheds})):
-        refs[(key, a)] = one_shot(ctx, os.path.join(ctx.scratch, "ref_%d" % k), MODELS[key], a)
+    for k, (n, s, a, x) in enumerate(scheds):
+        key = s[-1][1] if not x else x["final"]
+        rk = (key, a, n if x else None)
+        if rk not in refs:
+            edits = [tuple(kk.split("=", 1)) for _, kk in s if "=" in kk and kk.split("=", 1)[0].endswith(".yml")] if x else ()
+            refs[rk] = one_shot(ctx, os.path.join(ctx.scratch, "ref_%d" % k), MODELS[key], a, x, edits)
     with ThreadPoolExecutor(max_workers=6) as ex:
         results = list(ex.map(lambda j: scenario(ctx, *j), jobs))
     for r in results:
-        ref = refs[(r["final"], tuple(r["args"]))]
+        ref = refs[(r["final"], tuple(r["args"]), r["name"] if r.get("extra") else None)]
         differ = sorted(f for f in ref if r["tree"].get(f) != ref[f])
         stale = sorted(f for f in r["tree"] if f not in ref)
         ctx.case((r["name"], json.dumps(r["schedule"])), sample={"schedule": r["name"], "saves": len(r["schedule"]), "watcher_alive": r["alive"],
